@@ -204,7 +204,7 @@ impl C15 {
         self.next_k += n as i32;
         let xs: Vec<i32> = ks.iter().map(|k| x_of(*k)).collect();
         let b = RecordBatch::try_new(schema(), vec![Arc::new(Int32Array::from(ks)), Arc::new(Int32Array::from(xs))]).unwrap();
-        RecordBatchIterator::new(vec![Ok(b)], schema())
+        RecordBatchIterator::new(vec![Ok(b)].into_iter(), schema())
     }
 
     /// execute one `hist` line on the real code
